@@ -75,6 +75,10 @@ claim("C18", "closed-world enumeration (cookie allocations, SetCookie arguments,
       "Structural necessary condition for all responses/option combinations: every cookie sent derives from the single constructor, which wires each attribute from its option and selects the domain by first suffix match in the validated longest-first order; nobody rewrites attributes or reorders the domain list afterwards; copies keep all attributes; deletions reuse name and options. Level 'other'.",
       TRUST + " Not decided: the 4096-byte bound, suffix-match value semantics incl. host-with-port, http.Cookie serialisation.", "DESIGN.md §5 C18")
 
+claim("C06", "sanitiser dominance on SSA paths + accepting-path structure of the validators + bounded exhaustive language probe of the extracted regex/prefix constants",
+      "Structural necessary condition for all redirect strings/whitelists: every redirect and page-link sink takes GetRedirect's result, \"/\" or a value validated on the path; GetRedirect returns only validated candidates; login URL is the configured endpoint with only the query rewritten; validators accept only through the whitelist branch (non-empty host, label-boundary suffix, port rule) or the relative test, whose extracted acceptance language is disjoint from scheme-relative targets on all strings up to length 5 over a 15-symbol adversarial alphabet. Level 'other'.",
+      TRUST + " Also trusted: the model of net/http.Redirect rewriting and WHATWG preprocessing used as the 'bad' oracle. Not decided: absolute-URL parser differentials, longer strings, byte-for-byte landing.", "DESIGN.md §5 C06")
+
 for i in range(2, 21):
     pid = "C%02d" % i
     if pid not in T:
